@@ -290,6 +290,8 @@ impl Prop for C15 {
     let c = cal();
     match t {
       "days" => {
+        // strided walks on fresh threads (see engine::stride_walks)
+        stride_walks(env, out, "day", env.tier.pick(3200, 96000) / nshards as u32, 7000 + shard as u64, 366, (crate::model::NDAYS as i64) - 366, 800, &|x| vec![x], &ev);
         let (ylo, yhi) = shard_range(9997, shard, nshards);
         let (ylo, yhi) = (ylo as i64 + 2, yhi as i64 + 1);
         let ts = ensure(ylo - 1, yhi + 1);
